@@ -26,6 +26,9 @@ def plan(tier):
             for (h, w) in dtc.grid(tier, 'biort'):
                 if h > 16 or w > 16:
                     items.append({'biort': b, 'qshift': 'qshift_b', 'h': h, 'w': w, 'jcap': 3})
+    for (b, q) in dtc.BIG_PAIRS:
+        for (h, w) in dtc.BIG:
+            items.append({'biort': b, 'qshift': q, 'h': h, 'w': w, 'jcap': c03.jcap(tier)})
     items.sort(key=lambda it: -(it['h'] * it['w']))
     return items
 
